@@ -27,3 +27,11 @@ Proof.
   - apply (InvalidateFacts.cli_invalid_spec' d m W). exact Hs.
   - apply (InvalidateFacts.cli_store_spec d m W st (t_id t)). exact Hs.
 Qed.
+
+(* an opaque object with declared inner tasks (namedtuple / OrderedDict / ... holding tasks): its consumer goes with them *)
+Theorem opaque_declared_invalidated_by_shell (d : Dag.dag) name t ts v u :
+  In (dag_node name t) d -> In (AOpaque ts v) (t_args t) -> In u ts -> In (t_id t) (Invalidate.shell_invalid d u).
+Proof.
+  intros Hin Ha Hu. apply (consumer_invalidated_by_shell d name t u Hin).
+  left. exists (AOpaque ts v). split; [exact Ha | apply occ_opaque; exact Hu].
+Qed.
